@@ -204,6 +204,11 @@ type SecureChannel struct {
 	chunks map[uint32][]*MessageChunk
 	// chunkCount is the number of chunks held in chunks over all request IDs
 	chunkCount int
+
+	// incomplete holds the request ids of responses whose first chunks were
+	// dropped because the request was given up. The rest of such a response
+	// is dropped as well. Guarded by chunksMu.
+	incomplete map[uint32]struct{}
 	chunksMu   sync.Mutex
 
 	// openingInstance is a temporary var that allows the dispatcher know how to handle a open channel request
@@ -308,6 +313,7 @@ func newSecureChannel(endpoint string, c *uacp.Conn, cfg *Config, kind channelKi
 		disconnected: make(chan struct{}),
 		instances:    make(map[uint32][]*channelInstance),
 		chunks:       make(map[uint32][]*MessageChunk),
+		incomplete:   make(map[uint32]struct{}),
 		handlers:     make(map[uint32]chan *MessageBody),
 	}
 
@@ -438,6 +444,7 @@ func (s *SecureChannel) Receive(ctx context.Context) *MessageBody {
 			case 'A':
 				s.chunkCount -= len(s.chunks[reqID])
 				delete(s.chunks, reqID)
+				delete(s.incomplete, reqID)
 				s.chunksMu.Unlock()
 
 				msga := new(MessageAbort)
@@ -450,6 +457,14 @@ func (s *SecureChannel) Receive(ctx context.Context) *MessageBody {
 				return &MessageBody{RequestID: reqID, Err: ua.StatusCode(msga.ErrorCode)}
 
 			case 'C':
+				// A client does not keep the chunks of a response nobody waits
+				// for, e.g. the rest of a response whose request has timed out.
+				if s.kind == client && !s.hasHandler(reqID) {
+					s.incomplete[reqID] = struct{}{}
+					s.chunksMu.Unlock()
+					continue
+				}
+
 				// The peer chooses the request IDs, so the limit applies to the
 				// chunks buffered for all incomplete messages together. Otherwise
 				// a peer can make the channel hold MaxChunkCount chunks for each
@@ -464,6 +479,14 @@ func (s *SecureChannel) Receive(ctx context.Context) *MessageBody {
 					msg.Err = errors.Errorf("too many chunks: %d > %d", n, max)
 					return msg
 				}
+				s.chunksMu.Unlock()
+				continue
+			}
+
+			// the same goes for the final chunk of such a response:
+			// without the chunks before it the message cannot be decoded
+			if _, ok := s.incomplete[reqID]; ok {
+				delete(s.incomplete, reqID)
 				s.chunksMu.Unlock()
 				continue
 			}
@@ -1181,6 +1204,9 @@ func (s *SecureChannel) sendRequestWithTimeout(
 	// its final unlock and the dispatcher would never read again.
 	abandon := func(err error) error {
 		if _, ok := s.popHandler(reqID); ok {
+			// chunks of a response that has not arrived completely
+			// would otherwise count against MaxChunkCount for good
+			s.dropChunks(reqID)
 			return err
 		}
 		return deliver(<-ch)
@@ -1197,6 +1223,25 @@ func (s *SecureChannel) sendRequestWithTimeout(
 		verifPoint("request.timeoutBranch")
 		return abandon(ua.StatusBadTimeout)
 	}
+}
+
+// dropChunks forgets the chunks buffered for an incomplete message.
+func (s *SecureChannel) dropChunks(reqID uint32) {
+	s.chunksMu.Lock()
+	if n := len(s.chunks[reqID]); n > 0 {
+		s.chunkCount -= n
+		delete(s.chunks, reqID)
+		s.incomplete[reqID] = struct{}{}
+	}
+	s.chunksMu.Unlock()
+}
+
+// hasHandler reports whether a request with the id waits for its response.
+func (s *SecureChannel) hasHandler(reqID uint32) bool {
+	s.handlersMu.Lock()
+	defer s.handlersMu.Unlock()
+	_, ok := s.handlers[reqID]
+	return ok
 }
 
 func (s *SecureChannel) popHandler(reqID uint32) (chan *MessageBody, bool) {
